@@ -519,6 +519,10 @@ def run(ctx):
         'round_output: the executed (Q) model rounds with qround_even of model/Center.v (nearest, ties to even: '
         'qround_even_near in C12_whole_origin), the theorems use the same rule on R (Rround, C13_round_nearest); the '
         'correspondence includes exact ties (two equal point masses), the search excludes them',
+        'scale invariance: powers of two 2**k, |k| <= 400 (beyond that the squares in the autoconvolution leave the normal '
+        'binary64 range), must give a bit-identical origin for image_center / com / convolution / gaussian; the gaussian '
+        'method has this property since /repo commit 807c223 (projection normalised by its maximum before the fit; before it '
+        'the absolute gtol of scipy curve_fit made the fit stop at its start value for pixel values below ~1e-6)',
         'the gaussian method (scipy.optimize.curve_fit) and the slice method (scipy.optimize.minimize) are not modelled: '
         'the gaussian method is only swept numerically on noiseless Gaussian spots (1e-6 px); slice is outside the property',
     ]
